@@ -136,12 +136,82 @@ func script(seed int64, idx int) {
 		hostile = append(hostile, class)
 	}
 	classes := []string{"good-transfer", "good-transfer", "good-attest", "good-boundary", "foreign-sender", "foreign-attest-bad-token", "foreign-attest-short", "malformed", "malformed"}
+	// stepLiveness: every expected message that is already confirmable (block height + consistency level <=
+	// current height) must have been forwarded once the watcher is quiescent; re-checked after further
+	// quiescent periods before it is reported.
+	reported := map[int]bool{}
+	stepLiveness := func(where string) {
+		for attempt := 0; attempt < 4; attempt++ {
+			evs := w.H.AllEvents()
+			got := map[int]int{}
+			for _, a := range w.H.ArrivalsCopy() {
+				if e := alphsim.Match(a.Msg, evs); e != nil {
+					got[e.ID]++
+				}
+			}
+			var height int32
+			w.Sim.WithLock(func() { height = w.Sim.Height })
+			var missing []*alphsim.Ev
+			for _, e := range expected {
+				if got[e.ID] == 0 && !reported[e.ID] && e.Block.Height+int32(e.Intent.CL) <= height {
+					missing = append(missing, e)
+				}
+			}
+			if len(missing) == 0 {
+				return
+			}
+			if attempt < 3 {
+				if !w.H.WaitRounds(6, 20*time.Second) {
+					return // judged at the end from the request log (spin / stall)
+				}
+				continue
+			}
+			for _, e := range missing {
+				reported[e.ID] = true
+				vlib.CFinding("confirmable-message-not-forwarded-while-watcher-idle:"+where, map[string]interface{}{"script": desc, "trace": w.Trace, "poller_enabled": w.H.W.VerifBlockPollerEnabled(),
+					"event": fmt.Sprintf("log index %d seq=%d cl=%d block height %d (chain height %d) note=%s", e.LogIdx, e.Intent.Seq, e.Intent.CL, e.Block.Height, height, e.Note)})
+			}
+		}
+	}
 	if !w.H.WaitRounds(2, 25*time.Second) {
 		vlib.CInconclusive("watcher never started polling: " + desc)
 		return
 	}
 	nSteps := 4 + rng.Intn(8)
 	for st := 0; st < nSteps; st++ {
+		if rng.Intn(4) == 0 {
+			// new events arrive exactly while the watcher is confirming an earlier batch: several blocks become
+			// confirmable at once, and at the first main-chain query of that pass another block is appended
+			nb := 3 + rng.Intn(3)
+			w.Sim.Mutate("emit-several-blocks", func(s *alphsim.Sim) {
+				for i := 0; i < nb; i++ {
+					b := w.NewBlock(s, false)
+					emitOne(s, b, "good-transfer")
+				}
+				s.SetHeight(s.Height + 4)
+			})
+			armed := true
+			w.Sim.WithLock(func() {
+				w.Sim.OnRequest = func(s *alphsim.Sim, kind string, ord int, detail string) {
+					if armed && kind == "main-chain" {
+						armed = false
+						s.Version++
+						b := w.NewBlock(s, false)
+						emitOne(s, b, "good-transfer")
+						emitOne(s, b, "good-attest")
+						s.SetHeight(s.Height + 4)
+					}
+				}
+			})
+			w.Tr(fmt.Sprintf("emit %d blocks with one transfer each, all confirmable; one more block with two messages is appended at the first main-chain query of the confirmation pass", nb))
+			vlib.CCount("append_while_confirming", 1)
+			if !w.H.WaitRounds(3, 30*time.Second) {
+				break
+			}
+			w.Sim.WithLock(func() { w.Sim.OnRequest = nil })
+			stepLiveness("append-while-confirming")
+			continue
+		}
 		// a batch appended in one block ...
 		n := 1 + rng.Intn(5)
 		var batch []string
@@ -189,6 +259,7 @@ func script(seed int64, idx int) {
 			break // judged below from the request log
 		}
 		w.Sim.WithLock(func() { w.Sim.OnRequest = nil })
+		stepLiveness("after-batch")
 	}
 	w.Sim.WithLock(func() { w.Sim.OnRequest = nil })
 	finalV := 0
